@@ -3,141 +3,172 @@ import Chain33Model.Proofs.C33
 C33 — Peer input can never crash the node.  Property theorems only.
 
 `Model/C33.lean` gives every receive path as a total function into `Res` (explicit `panic`).
-`Input` enumerates what a peer (or a clock tick of a background loop processing stored peer input)
-can make the node do; `runInput` tells on which `Path` it runs and whether it panics; the node survives
-when the path carries a deferred `recover` (`recovered`, a table whose entries the harness re-extracts
-from the source with go/ast on every run) or nothing panics.
+`Input` (Proofs/C33.lean) enumerates what a peer — or a tick of a background loop processing stored peer
+input — can make the node do; `runInput` tells on which `Path` it runs and whether it panics; the node
+survives when the path carries a deferred `recover` (`recovered`, a table whose entries the harness
+re-extracts from the source with go/ast on every run) or nothing panics.
+
+The model is that of the code after the repairs fdde6e4 (a pooled group that does not fit is not used)
+and e49ca2c (a suppressed duplicate is not queued); the behaviour before them is kept as `fillOld` /
+`postChainOld` with the two regression witnesses at the end.
 -/
 namespace C33
 
 /-- reachable states: any configuration, then any sequence of peer inputs, pool updates (transactions
-arriving in the mempool), chain progress and clock advance -/
+arriving in the mempool), chain progress and clock advance. The local blockchain module answers a
+GetBlocks(h,h) with an error or with at least one block (it returns exactly one): `c ≠ .items 0`. -/
 inductive Reach : State → Prop where
   | init (multi : Bool) (timeout : Int) : Reach { multi := multi, timeout := timeout }
   | input {s : State} (i : Input) : Reach s → nodeSurvives s i = true → Reach (applyInput s i)
   | pool {s : State} (h : SH) (t : PoolTx) : Reach s → Reach { s with pool := s.pool.push h t }
-  | env {s : State} (cur now : Int) (c : ChainReply) : Reach s → Reach { s with cur := cur, now := now, chain := c }
+  | poolDel {s : State} (h : SH) : Reach s → Reach { s with pool := s.pool.del h }
+  | poolUp {s : State} (up : Bool) : Reach s → Reach { s with pool := { s.pool with up := up } }
+  | env {s : State} (cur now : Int) (c : ChainReply) : Reach s → c ≠ .items 0 →
+      Reach { s with cur := cur, now := now, chain := c }
 
 /-- **The property as stated**: in every reachable state every input leaves the node alive. -/
 def FullStatement : Prop := ∀ s, Reach s → ∀ i, nodeSurvives s i = true
 
-/-- state of the first witness just before the fatal tick -/
-def witnessState : State :=
-  let s0 : State := { pool := ({} : Pool).push "h1" ⟨1, []⟩ }
-  let s1 := applyInput s0 (.lt ⟨"k", true, 10, 3, some 0, ["h0", "h1", "h20"], 2⟩)
-  { s1 with pool := s1.pool.push "h20" ⟨20, [20, 21]⟩ }
+/-- what every reachable state satisfies: every queued light block has a short hash for each of its empty
+slots, no nil message is queued for the validator, the blockchain module's answers are well formed -/
+def Inv (s : State) : Prop := (∀ pd ∈ s.pend, PendOk pd) ∧ true ∉ s.msgs ∧ s.chain ≠ .items 0
 
-theorem witness_reach : Reach witnessState := by
-  have h0 : Reach ({ multi := false, timeout := 1000 } : State) := Reach.init false 1000
-  have h1 := Reach.pool "h1" ⟨1, []⟩ h0
-  have h2 := Reach.input (.lt ⟨"k", true, 10, 3, some 0, ["h0", "h1", "h20"], 2⟩) h1 (by decide)
-  exact Reach.pool "h20" ⟨20, [20, 21]⟩ h2
-
-/-- **The full statement is false of the code** (S-C33): a light block with three slots whose last short
-hash is that of a pooled *group* of two is queued while the group is not yet in the pool; when the group
-arrives, the next tick of `pendBlockLoop` expands it past `len(Txs)` — and that loop has no recover.
-Replayed on the real code by the harness (stepped tick and, in a child process, the production loop). -/
-theorem tick_full_false : ¬ FullStatement := by
-  intro h
-  have := h witnessState witness_reach .pendTick
-  revert this
-  decide
-
-/-- the same witness through the model's own definitions used by the driver -/
-theorem witness_pend_tick_crashes : witnessPendTick = .panic ∧ survives .pendTick witnessPendTick = false := by
-  decide
-
-/-- second refutation (needs `p2p.types` with two entries): the same block response delivered twice
-queues a nil queue message; the next `manageDeniedPeer` tick dereferences it, outside any recover. -/
-theorem denied_tick_full_false :
-    ∃ s, Reach s ∧ nodeSurvives s .deniedTick = false := by
-  refine ⟨applyInput (applyInput { multi := true, timeout := 1000 } (.blockResp true "b")) (.blockResp true "b"), ?_, by decide⟩
-  exact Reach.input _ (Reach.input _ (Reach.init true 1000) (by decide)) (by decide)
-
-/-! ### what does hold -/
-
-/-- **Paths under a recover cannot kill the process**, whatever they do. -/
-theorem recovered_paths (s : State) (i : Input) (h : recovered (runInput s i).1 = true) :
-    nodeSurvives s i = true := by
-  simp [nodeSurvives, h]
-
-/-- which inputs run under a recover: every pubsub receive path and every stream handler; the three
-background loops, the topic validators and the client-side reply decoding do not. -/
-theorem recovered_table :
-    [Path.recvLt, .recvReq, .recvResp, .dlOld, .dlNew, .version, .peerInfo].all recovered = true ∧
-    [Path.pendTick, .reqTick, .deniedTick, .validate, .subMsgDecode, .dlReply].all (fun p => !recovered p) = true := by
-  decide
-
-/-- receive path of a light block, full statement: false (`txCount = 0`, `txCount` above the hash list,
-missing header, negative count, group at the tail) — but all of it under the recover. -/
-theorem recvLt_panics_exist :
-    recvLt {} ⟨"k", true, 1, 0, some 0, ["h0"], 0⟩ = .panic ∧
-    recvLt {} ⟨"k", true, 1, 3, some 0, ["h0", "h1"], 0⟩ = .panic ∧
-    recvLt {} ⟨"k", false, 0, 0, none, [], 0⟩ = .panic ∧
-    recvLt {} ⟨"k", true, 1, -1, some 0, ["h0"], 0⟩ = .panic := by decide
-
-/-- **_partial**: a light block that is well formed (header present, `1 ≤ txCount ≤ 2^16`, at least
-`txCount` short hashes) and whose pooled groups fit behind their slots is received without panic, and
-what gets queued again satisfies the invariant `PendOk`.  Added hypothesis: well-formedness + `GroupsFit`. -/
-theorem recvLt_wellformed_total (s : State) (i : LtIn)
-    (hh : i.hasHeader = true) (h1 : 1 ≤ i.txCount) (h2 : i.txCount ≤ bigSlice)
-    (hl : i.txCount.toNat ≤ i.hashes.length) (hg : GroupsFit s.pool i.hashes i.txCount.toNat) :
-    ∃ r, recvLt s i = .ok r := by
-  unfold recvLt
+theorem postChain_keeps (s : State) (key : String) :
+    (postChain s key).pend = s.pend ∧ (postChain s key).chain = s.chain ∧ (true ∉ s.msgs → true ∉ (postChain s key).msgs) := by
+  unfold postChain
   split
-  · exact ⟨_, rfl⟩
-  · have hb : (2 : Int) ^ 16 ≤ 2 ^ 45 := by decide
-    have e1 : ¬ (i.txCount < 0) := by omega
-    have e2 : ¬ (i.txCount > maxSlice) := by unfold maxSlice; unfold bigSlice at h2; omega
-    have e3 : ¬ (i.txCount > bigSlice) := by omega
-    have e4 : ¬ (i.txCount = 0) := by omega
-    simp only [hh, e1, e2, e3, e4, Bool.not_true, Bool.false_eq_true, if_false]
-    have hlen : (i.miner :: List.replicate (i.txCount.toNat - 1) none : Slots).length = i.txCount.toNat := by
-      simp; omega
-    obtain ⟨r, hr, _⟩ := build_ok s.pool ⟨i.key, i.sender, i.height, s.now, i.hashes,
-      i.miner :: List.replicate (i.txCount.toNat - 1) none⟩ ⟨by rw [hlen]; exact hl, by rw [hlen]; exact hg⟩
-    rw [hr]
-    simp only
-    split
-    · split <;> exact ⟨_, rfl⟩
-    · exact ⟨_, rfl⟩
+  · exact ⟨rfl, rfl, id⟩
+  · exact ⟨rfl, rfl, by intro h; simpa using h⟩
 
-/-- **_partial** for the background loop: if every queued block satisfies `PendOk` for the current pool
-(hash list at least as long as the slot list, pooled groups fit), a tick does not panic.
-The witness above shows the hypothesis is *not* an invariant of the code: a later pool update breaks it. -/
-theorem tick_total_partial (s : State) (h : ∀ pd ∈ s.pend, PendOk s.pool pd) : ∃ r, tick s = .ok r := by
-  obtain ⟨r, hr⟩ := pendList_ok s.pool s.now s.timeout s.pend h
+theorem postChain_inv (s : State) (key : String) (h : Inv s) : Inv (postChain s key) := by
+  obtain ⟨h1, h2, h3⟩ := postChain_keeps s key
+  exact ⟨by rw [h1]; exact h.1, h3 h.2.1, by rw [h2]; exact h.2.2⟩
+
+theorem foldl_postChain_inv (l : List (Slots × Pend)) (s : State) (h : Inv s) :
+    Inv (l.foldl (fun st p => postChain st p.2.key) s) := by
+  induction l generalizing s with
+  | nil => exact h
+  | cons a l ih => exact ih _ (postChain_inv s a.2.key h)
+
+/-- one tick of pendBlockLoop never panics on queued blocks and keeps them well formed -/
+theorem tick_total (s : State) (h : Inv s) : ∃ s' o, tick s = .ok (s', o) ∧ Inv s' := by
+  obtain ⟨keep, posted, tmo, hr, hk⟩ := pendList_total s.pool s.now s.timeout s.pend h.1
   unfold tick
   rw [hr]
-  obtain ⟨keep, posted, tmo⟩ := r
-  exact ⟨_, rfl⟩
+  refine ⟨_, _, rfl, ?_⟩
+  exact foldl_postChain_inv posted _ ⟨hk, h.2.1, h.2.2⟩
 
-/-- non-vacuity: a well-formed block with a group in the middle, group pooled, satisfies the hypotheses
-and is rebuilt at once. -/
-example :
-    recvLt { pool := (({} : Pool).push "h1" ⟨1, [1, 2]⟩).push "h3" ⟨3, []⟩ }
-      ⟨"k", true, 5, 4, some 0, ["h0", "h1", "h2", "h3"], 1⟩ =
-    .ok ({ pool := (({} : Pool).push "h1" ⟨1, [1, 2]⟩).push "h3" ⟨3, []⟩, seen := ["k"], msgs := [false] },
-         .posted [some 0, some 1, some 2, some 3]) := by decide
+theorem recvLt_inv (s : State) (i : LtIn) (h : Inv s) : Inv (recvLtTotal s i).1 := by
+  unfold recvLtTotal
+  cases hr : recvLt s i with
+  | panic => exact ⟨h.1, h.2.1, h.2.2⟩
+  | ok r =>
+    obtain ⟨s', o⟩ := r
+    simp only
+    unfold recvLt at hr
+    split at hr
+    · simp at hr; obtain ⟨rfl, _⟩ := hr; exact h
+    · split at hr
+      · simp at hr
+      · split at hr
+        · simp at hr
+        · split at hr
+          · simp at hr
+          · split at hr
+            · simp at hr; obtain ⟨rfl, _⟩ := hr; exact ⟨h.1, h.2.1, h.2.2⟩
+            · dsimp only at hr
+              split at hr
+              · simp at hr
+              · split at hr
+                · simp at hr
+                · rename_i r hb
+                  split at hr
+                  · split at hr
+                    · simp at hr; obtain ⟨rfl, _⟩ := hr
+                      exact postChain_inv _ _ ⟨h.1, h.2.1, h.2.2⟩
+                    · simp at hr; obtain ⟨rfl, _⟩ := hr; exact ⟨h.1, h.2.1, h.2.2⟩
+                  · rename_i hd
+                    simp at hr; obtain ⟨rfl, _⟩ := hr
+                    refine ⟨?_, h.2.1, h.2.2⟩
+                    intro pd hpd
+                    simp at hpd
+                    rcases hpd with hpd | rfl
+                    · exact h.1 pd hpd
+                    · exact build_keeps_ok _ _ _ hb (by simpa using hd)
 
-/-- block requests: the queued-request loop and the receive path never panic as long as the local
-blockchain module answers a successful GetBlocks(h,h) with at least one item (it returns exactly one). -/
-theorem reqTick_total_partial (s : State) (h : s.chain ≠ .items 0) : ∃ r, reqTick s = .ok r := by
+theorem applyInput_inv (s : State) (i : Input) (h : Inv s) : Inv (applyInput s i) := by
+  cases i with
+  | lt i => exact recvLt_inv s i h
+  | pendTick =>
+    obtain ⟨s', o, ht, hi⟩ := tick_total s h
+    simp [applyInput, ht, hi]
+  | blockReq r =>
+    simp only [applyInput]
+    cases hr : recvReq s r with
+    | panic => exact h
+    | ok x =>
+      obtain ⟨s', o⟩ := x
+      simp only
+      unfold recvReq at hr
+      split at hr
+      · simp at hr; obtain ⟨rfl, _⟩ := hr; exact h
+      · split at hr
+        all_goals first
+          | (simp at hr; done)
+          | (simp at hr; obtain ⟨rfl, _⟩ := hr; first | exact h | exact ⟨h.1, h.2.1, h.2.2⟩)
+  | reqTick =>
+    simp only [applyInput]
+    cases hr : reqTick s with
+    | panic => exact h
+    | ok x =>
+      obtain ⟨s', o⟩ := x
+      simp only
+      unfold reqTick at hr
+      split at hr
+      · simp at hr
+      · simp at hr; obtain ⟨rfl, _⟩ := hr; exact ⟨h.1, h.2.1, h.2.2⟩
+  | blockResp d k =>
+    simp only [applyInput, recvResp]
+    split
+    · exact h
+    · split <;> exact postChain_inv s k h
+  | block k => exact postChain_inv s k h
+  | deniedTick =>
+    simp only [applyInput]
+    cases hr : deniedTick s with
+    | panic => exact h
+    | ok s' =>
+      simp only
+      unfold deniedTick at hr
+      split at hr
+      · simp at hr
+      · simp at hr; subst hr; exact ⟨h.1, by simp, h.2.2⟩
+  | dlOld _ _ _ _ => exact h
+  | dlNew _ _ _ => exact h
+  | dlReply _ => exact h
+  | version _ _ _ => exact h
+  | peerInfo _ _ => exact h
+
+theorem reach_inv {s : State} (h : Reach s) : Inv s := by
+  induction h with
+  | init m t => exact ⟨by simp, by simp, by simp⟩
+  | input i _ _ ih => exact applyInput_inv _ i ih
+  | pool h t _ ih => exact ⟨ih.1, ih.2.1, ih.2.2⟩
+  | poolDel h _ ih => exact ⟨ih.1, ih.2.1, ih.2.2⟩
+  | poolUp u _ ih => exact ⟨ih.1, ih.2.1, ih.2.2⟩
+  | env c n ch _ hc ih => exact ⟨ih.1, ih.2.1, hc⟩
+
+/-- block requests: the queued-request loop never panics as long as the local blockchain module answers a
+successful GetBlocks(h,h) with at least one item -/
+theorem reqTick_total (s : State) (h : s.chain ≠ .items 0) : ∃ r, reqTick s = .ok r := by
   obtain ⟨r, hr⟩ := reqList_ok s s.reqs h
   unfold reqTick; rw [hr]; obtain ⟨a, b⟩ := r; exact ⟨_, rfl⟩
 
-/-- without the hypothesis: `details.GetItems()[0]` on an empty answer, in a loop without recover -/
+/-- environment assumption made visible: on an empty success `details.GetItems()[0]` would panic -/
 theorem reqTick_empty_answer_panics :
     reqTick { chain := .items 0, cur := 5, reqs := [⟨0, 3⟩] } = .panic := by decide
 
-/-- with a single p2p type no nil message is ever queued, so `manageDeniedPeer` never dereferences one -/
-theorem postChain_single_no_nil (s : State) (key : String) (hm : s.multi = false) (h : true ∉ s.msgs) :
-    true ∉ (postChain s key).msgs := by
-  unfold postChain
-  simp only [hm, Bool.false_and, Bool.false_eq_true, if_false]
-  simpa using h
-
-theorem deniedTick_total_partial (s : State) (h : true ∉ s.msgs) : ∃ r, deniedTick s = .ok r := by
+theorem deniedTick_total (s : State) (h : true ∉ s.msgs) : ∃ r, deniedTick s = .ok r := by
   unfold deniedTick; simp [h]
 
 /-- download replies are decoded defensively: total, for every reply shape -/
@@ -146,14 +177,26 @@ theorem dlReply_total (r : DlReply) : dlReply r ≠ .panic := by
   cases r.rd <;> simp
   split
   · simp
-  · split <;> simp
+  · split
+    · simp
+    · split <;> simp
 
-/-- …and accept a block of any height (the requested height is not compared): see C35 -/
-theorem dlReply_ignores_requested_height (h : Int) :
-    dlReply ⟨.msg, true, 1, true, false, h⟩ = .ok (some h) := by
-  simp [dlReply]
+/-- …and a block is only accepted when it has the requested height (repair 8854790) -/
+theorem dlReply_checks_height (r : DlReply) (h : Int) (hr : dlReply r = .ok (some h)) : h = r.requested := by
+  unfold dlReply at hr
+  split at hr
+  · simp at hr
+  · simp at hr
+  · split at hr
+    · simp at hr
+    · split at hr
+      · simp at hr
+      · split at hr
+        · simp at hr
+        · rename_i hne
+          simp at hr; subst hr
+          exact Decidable.of_not_not hne
 
-/-- the new download handler, the version handlers and the peer-info handlers are total -/
 theorem dlNewCore_total (c : ChainReply) (a b : Int) : dlNewCore c a b ≠ .panic := by
   unfold dlNewCore
   split
@@ -189,26 +232,21 @@ theorem dlOld_panic_iff (c : ChainReply) (rd : ReadRes) (hm : Bool) (a b : Int) 
     | err => simp
     | items n => cases n <;> simp
 
-/-- **the node survives every input that is not one of the two refuted loop steps, under the stated
-invariants** — the `_partial` form of `FullStatement`. Added hypotheses: queued blocks satisfy `PendOk`,
-the light block (if the input is one) is well formed with fitting groups, the blockchain module never
-answers GetBlocks with an empty success, no nil message is queued (true for a single p2p type). -/
-theorem node_survives_partial (s : State) (i : Input)
-    (hp : ∀ pd ∈ s.pend, PendOk s.pool pd) (hc : s.chain ≠ .items 0) (hn : true ∉ s.msgs) :
-    nodeSurvives s i = true := by
+/-- state invariant ⇒ every input is survived -/
+theorem survives_of_inv (s : State) (i : Input) (h : Inv s) : nodeSurvives s i = true := by
   cases i with
   | lt i => simp [nodeSurvives, runInput, recovered]
   | pendTick =>
-    obtain ⟨r, hr⟩ := tick_total_partial s hp
+    obtain ⟨s', o, hr, _⟩ := tick_total s h
     simp [nodeSurvives, runInput, hr, Res.isPanic]
   | blockReq r => simp [nodeSurvives, runInput, recovered]
   | reqTick =>
-    obtain ⟨r, hr⟩ := reqTick_total_partial s hc
+    obtain ⟨r, hr⟩ := reqTick_total s h.2.2
     simp [nodeSurvives, runInput, hr, Res.isPanic]
   | blockResp d k => simp [nodeSurvives, runInput]
   | block k => simp [nodeSurvives, runInput]
   | deniedTick =>
-    obtain ⟨r, hr⟩ := deniedTick_total_partial s hn
+    obtain ⟨r, hr⟩ := deniedTick_total s h.2.1
     simp [nodeSurvives, runInput, hr, Res.isPanic]
   | dlOld rd hm a b => simp [nodeSurvives, runInput, recovered]
   | dlNew rd a b => simp [nodeSurvives, runInput, recovered]
@@ -218,12 +256,83 @@ theorem node_survives_partial (s : State) (i : Input)
   | version rd a b => simp [nodeSurvives, runInput, recovered]
   | peerInfo o rd => simp [nodeSurvives, runInput, recovered]
 
-/-- non-vacuity of `node_survives_partial`: a state with a queued block waiting for a group that fits -/
-example : ∀ pd ∈ ([⟨"k", 1, 5, 0, ["a", "b", "c"], [some 0, none, none]⟩] : List Pend),
-    PendOk (({} : Pool).push "b" ⟨1, [1, 2]⟩) pd := by
-  intro pd hpd
-  simp at hpd
-  subst hpd
-  exact ⟨by simp, groupsFit_of_check _ _ _ (by decide)⟩
+/-- **Peer input can never crash the node** (model of the repaired code): in every state reachable by any
+sequence of peer inputs, background ticks, pool updates and clock/chain progress, every further input —
+including every tick of the three background loops — leaves the process alive. -/
+theorem node_survives : FullStatement := fun s hs i => survives_of_inv s i (reach_inv hs)
+
+/-- non-vacuity: the state of the former crash witness is reachable, and its tick is now survived with the
+block still queued (the group that does not fit is not used) -/
+example :
+    let s0 : State := { pool := ({} : Pool).push "h1" ⟨1, []⟩ }
+    let s1 := applyInput s0 (.lt ⟨"k", true, 10, 3, some 0, ["h0", "h1", "h20"], 2⟩)
+    ((tick { s1 with pool := s1.pool.push "h20" ⟨20, [20, 21]⟩ }).map fun r => r.1.pend.map (·.txs)) =
+      .ok [[some 0, some 1, none]] := by decide
+
+/-- **Paths under a recover cannot kill the process**, whatever they do. -/
+theorem recovered_paths (s : State) (i : Input) (h : recovered (runInput s i).1 = true) :
+    nodeSurvives s i = true := by
+  simp [nodeSurvives, h]
+
+/-- which inputs run under a recover: every pubsub receive path and every stream handler; the three
+background loops, the topic validators and the client-side reply decoding do not. -/
+theorem recovered_table :
+    [Path.recvLt, .recvReq, .recvResp, .dlOld, .dlNew, .version, .peerInfo].all recovered = true ∧
+    [Path.pendTick, .reqTick, .deniedTick, .validate, .subMsgDecode, .dlReply].all (fun p => !recovered p) = true := by
+  decide
+
+/-- the receive path of a light block does panic on malformed input (`txCount = 0`, `txCount` above the
+hash list, missing header, negative count) — all of it under the recover of handleBroadcastReceive, and
+nothing of such a block is queued. -/
+theorem recvLt_panics_exist :
+    recvLt {} ⟨"k", true, 1, 0, some 0, ["h0"], 0⟩ = .panic ∧
+    recvLt {} ⟨"k", true, 1, 3, some 0, ["h0", "h1"], 0⟩ = .panic ∧
+    recvLt {} ⟨"k", false, 0, 0, none, [], 0⟩ = .panic ∧
+    recvLt {} ⟨"k", true, 1, -1, some 0, ["h0"], 0⟩ = .panic := by decide
+
+/-- a well-formed light block (header, `1 ≤ txCount ≤ 2^16`, at least `txCount` short hashes) is received
+without any panic, whatever the pool holds -/
+theorem recvLt_wellformed_total (s : State) (i : LtIn)
+    (hh : i.hasHeader = true) (h1 : 1 ≤ i.txCount) (h2 : i.txCount ≤ bigSlice)
+    (hl : i.txCount.toNat ≤ i.hashes.length) :
+    ∃ r, recvLt s i = .ok r := by
+  unfold recvLt
+  split
+  · exact ⟨_, rfl⟩
+  · have e1 : ¬ (i.txCount < 0) := by omega
+    have e2 : ¬ (i.txCount > maxSlice) := by unfold maxSlice; unfold bigSlice at h2; omega
+    have e3 : ¬ (i.txCount > bigSlice) := by omega
+    have e4 : ¬ (i.txCount = 0) := by omega
+    simp only [hh, e1, e2, e3, e4, Bool.not_true, Bool.false_eq_true, if_false]
+    have hlen : (i.miner :: List.replicate (i.txCount.toNat - 1) none : Slots).length = i.txCount.toNat := by
+      simp; omega
+    have hc : PendOk ⟨i.key, i.sender, i.height, s.now, i.hashes, i.miner :: List.replicate (i.txCount.toNat - 1) none⟩ := by
+      intro j hj
+      have : j < (i.miner :: List.replicate (i.txCount.toNat - 1) none : Slots).length := by
+        rcases Nat.lt_or_ge j (i.miner :: List.replicate (i.txCount.toNat - 1) none : Slots).length with h | h
+        · exact h
+        · rw [List.getElem?_eq_none h] at hj; simp at hj
+      rw [hlen] at this
+      simp only [Nat.zero_add]; omega
+    obtain ⟨r, hr, _⟩ := build_total s.pool _ hc
+    rw [hr]
+    simp only
+    split
+    · split <;> exact ⟨_, rfl⟩
+    · exact ⟨_, rfl⟩
+
+/-! ### regression witnesses: the code before the repairs -/
+
+/-- before fdde6e4: the queued block of the witness made buildPendBlock index past `len(Txs)` inside
+pendBlockLoop once the group had reached the pool -/
+theorem old_pend_tick_panicked : witnessPendTickOld = true := by decide
+
+/-- before e49ca2c: with two p2p types the duplicate block response queued a nil message and the next
+manageDeniedPeer tick dereferenced it -/
+theorem old_denied_tick_panicked : witnessDeniedTickOld = .panic := by decide
+
+/-- the same two inputs on the repaired code -/
+theorem witnesses_survive :
+    survives .pendTick witnessPendTick = true ∧ survives .deniedTick witnessDeniedTick = true := by decide
 
 end C33
